@@ -1,6 +1,8 @@
 CONSTANTS Params = {1, 2, 3, 4}
  Data = {1, 2, 3, 4}
  Dim <- TraceDim
+ Canon <- TraceCanon
+ HasFitTransform = TRUE
  Thresholds = {1, 2, 3, 4}
  ValSets = {1, 2, 3}
  Strategies = {1, 2, 3, 4}
